@@ -436,10 +436,400 @@ func probeFuncs() []transFunc {
 	for _, n := range []string{"probeDefer", "probeNilable", "probeFnValues"} {
 		out = append(out, transFunc{file: pf, recv: "probeRec", name: n, lean: n, fields: recFields, types: pairT, structs: pairS, calls: recCalls})
 	}
+	// round 4: see harness/cmd/zvh/trans_probe4.go
+	p4 := "@verif/harness/cmd/zvh/trans_probe4.go"
+	lvlConsts := map[string]string{"probeLo": "src", "probeMid": "src", "probeHi": "src", "probeMin": "src", "probeMax": "src", "probeInv": "src"}
+	lvlT := map[string]string{"probeLvl": "i8"}
+	lvlSelf := &fieldSpec{"lvl", "i8"}
+	toLower := shim{kind: "ext", f: "bytes.ToLower", res: []string{"bytes"}}
+	out = append(out,
+		transFunc{file: p4, recv: "probeLvl", name: "set", lean: "probeSet", recvAs: lvlSelf, types: lvlT, consts: lvlConsts},
+		transFunc{file: p4, recv: "probeLvl", name: "setFolded", lean: "probeSetFolded", recvAs: lvlSelf, recvNil: "isnil", types: lvlT, consts: lvlConsts,
+			calls: map[string]shim{"recv.set": {kind: "fun", f: "probeSet", res: []string{"bool"}}, "bytes.ToLower": toLower}},
+		transFunc{file: p4, name: "probeParse", lean: "probeParse", types: lvlT, consts: lvlConsts,
+			calls: map[string]shim{"i8.setFolded": {kind: "funaddr", f: "probeSetFolded", res: []string{"int"}, flds: []string{"lvl"}, with: []string{"isnil"}}}},
+		transFunc{file: p4, name: "probeScan", lean: "probeScan", types: lvlT, consts: lvlConsts},
+		transFunc{file: p4, name: "probeDecode", lean: "probeDecode",
+			types:   map[string]string{"struct{L}": "struct:probePld", "out": "struct:probeOut"},
+			structs: map[string][]fieldSpec{"probePld": {{"L", "opt:int"}}, "probeOut": {{"V", "int"}, {"OK", "bool"}}},
+			calls:   map[string]shim{"probeFill": {kind: "mutarg:1", f: "probe.fill", res: []string{"bool"}}}},
+		transFunc{file: p4, name: "probeCallVariadic", lean: "probeCallVariadic",
+			calls: map[string]shim{"probeVariadic": {kind: "fun", f: "probeVariadic", res: []string{"int"}, vari: 2}}},
+		transFunc{file: p4, name: "probeCapped", lean: "probeCapped", noFieldAppend: true},
+		transFunc{file: p4, recv: "probeOnceT", name: "get", lean: "probeOnceGet",
+			fields: map[string]fieldSpec{"once": {"done", "bool"}, "v": {"v", "int"}},
+			calls:  map[string]shim{"recv.once.Do": {kind: "once", flds: []string{"once"}}}},
+		transFunc{file: p4, recv: "probeOnceT", name: "getTwice", lean: "probeOnceTwice",
+			fields: map[string]fieldSpec{"once": {"done", "bool"}, "v": {"v", "int"}},
+			calls:  map[string]shim{"recv.get": {kind: "fun", f: "probeOnceGet", res: []string{"int"}}}},
+		transFunc{file: p4, name: "probeTypeSwitch", lean: "probeTypeSwitch", types: map[string]string{"interface{}": "Any"},
+			calls: map[string]shim{".(int)": {kind: "extstmt", f: "probe.asInt", res: []string{"int", "bool"}},
+				".(string)": {kind: "extstmt", f: "probe.asString", res: []string{"string", "bool"}}}},
+		transFunc{file: p4, name: "probeBoxed", lean: "probeBoxed",
+			types:   map[string]string{"probeBox": "struct:probeBox"},
+			structs: map[string][]fieldSpec{"probeBox": {{"buf", "Buffer"}, {"n", "int"}}},
+			calls: merge(bufferCalls, map[string]shim{"probeNewBuf": {kind: "lit", f: ".bytes []", res: []string{"Buffer"}},
+				"probeWrite": {kind: "mutarg:0", f: "probe.write"}})},
+	)
 	return out
 }
 
+// ---- round 4: zapcore/level.go.  The Level behind a pointer receiver is the field "lvl"; the level constants are READ
+// from the source (iota expressions); bytes.ToLower, fmt.Sprintf / Errorf are parameters / free constructors.
+var levelConsts = map[string]string{"DebugLevel": "src", "InfoLevel": "src", "WarnLevel": "src", "ErrorLevel": "src", "DPanicLevel": "src",
+	"PanicLevel": "src", "FatalLevel": "src", "_minLevel": "src", "_maxLevel": "src", "InvalidLevel": "src"}
+var levelSelf = &fieldSpec{"lvl", "i8"}
+
+func levelFunc(recv, name string, extra map[string]shim) transFunc {
+	f := transFunc{file: "zapcore/level.go", recv: recv, name: name, lean: name, consts: levelConsts,
+		types: map[string]string{"Level": "i8", "LevelEnabler": "LevelEnabler"},
+		calls: merge(map[string]shim{
+			"fmt.Sprintf":   {kind: "ext", f: "fmt.Sprintf", res: []string{"string"}},
+			"fmt.Errorf":    {kind: "ext", f: "fmt.Errorf", res: []string{"error"}},
+			"bytes.ToLower": {kind: "ext", f: "bytes.ToLower", res: []string{"bytes"}},
+		}, extra)}
+	if recv != "" {
+		f.recvAs = levelSelf
+	}
+	if name == "String" || name == "CapitalString" || name == "Enabled" || name == "MarshalText" || name == "Set" { // `String`, `Set` are Lean names
+		f.lean = "Level" + name
+	}
+	return f
+}
+
+// level.UnmarshalText(…) on an addressable local Level: the callee's pointee field is "lvl", its nil flag "isnil"
+var levelUnmarshalOnLocal = map[string]shim{"i8.UnmarshalText": {kind: "funaddr", f: "UnmarshalText", res: []string{"error"},
+	flds: []string{"lvl"}, with: []string{"isnil"}}}
+
+// ---- http_handler.go: the decision structure of the level endpoint.  The request is the record [Method, Header, Body];
+// net/http (FormValue, Header.Get, WriteHeader), encoding/json (Decode, Encode) are parameters / recorded intrinsics; the
+// AtomicLevel's current level is the pseudo-field "#level".
+func httpFunc(recv, name string, extra map[string]shim) transFunc {
+	return transFunc{file: "http_handler.go", recv: recv, name: name, lean: name,
+		fields: map[string]fieldSpec{"#level": {"level", "i8"}, "#ev": {"ev", "[]Event"}},
+		types: map[string]string{"zapcore.Level": "i8", "*http.Request": "ptr:struct:Request", "http.ResponseWriter": "ResponseWriter",
+			"io.Reader": "Reader", "struct{Level}": "struct:putPayload", "payload": "struct:payload", "errorResponse": "struct:errorResponse"},
+		structs: map[string][]fieldSpec{
+			"Request":       {{"Method", "string"}, {"Header", "Header"}, {"Body", "Reader"}, {"Rest", "RequestRest"}},
+			"putPayload":    {{"Level", "opt:i8"}},
+			"payload":       {{"Level", "i8"}},
+			"errorResponse": {{"Error", "string"}},
+		},
+		consts: map[string]string{"http.MethodGet": "str:GET", "http.MethodPut": "str:PUT",
+			"http.StatusBadRequest": "400", "http.StatusMethodNotAllowed": "405"},
+		calls: merge(map[string]shim{
+			"errors.New": {kind: "ext", f: "errors.New", res: []string{"error"}},
+			"fmt.Errorf": {kind: "ext", f: "fmt.Errorf", res: []string{"error"}},
+		}, extra)}
+}
+
+// ---- round 4, C07: deriving loggers (logger.go) and the cores' With methods.  A *Logger is the object of the field
+// environment (all ten fields, opaque except `name`); the clone is the second object.  Options are opaque values whose
+// `apply` is an intrinsic on the clone's fields; Core.With is a parameter.
+var lgNames = []string{"core", "development", "addCaller", "onPanic", "onFatal", "name", "errorOutput", "addStack", "callerSkip", "clock"}
+
+func lgFieldMap(prefix string) map[string]fieldSpec {
+	m := map[string]fieldSpec{}
+	for _, n := range lgNames {
+		t := "Lg" + n
+		if n == "name" {
+			t = "string"
+		}
+		if n == "core" {
+			t = "Core"
+		}
+		m[n] = fieldSpec{prefix + n, t}
+	}
+	return m
+}
+
+func loggerFunc(name string, extra map[string]shim) transFunc {
+	return transFunc{file: "logger.go", recv: "Logger", name: name, lean: "Logger_" + name,
+		fields: merge2(lgFieldMap(""), map[string]fieldSpec{"#ev": {"ev", "[]Event"}}), recvAs: &fieldSpec{"self", "Logger"},
+		other: lgFieldMap("o."), otherAs: &fieldSpec{"o.self", "Logger"},
+		types: map[string]string{"*Logger": "Logger", "Field": "Field", "Option": "Option", "zapcore.Core": "Core"},
+		calls: merge(map[string]shim{
+			"Core.With":    {kind: "ext", f: "Core.With", res: []string{"Core"}},
+			"strings.Join": {kind: "ext", f: "strings.Join", res: []string{"string"}},
+		}, extra)}
+}
+
+// the cores' With methods: sub-cores, encoders, sinks, enablers are opaque nil-able values; a derived core is the RECORD
+// of the struct the method builds (so a dropped or swapped field shows); Core.With of a sub-core (`Core.With`),
+// Encoder.Clone (`Encoder.Clone`) and addFields (`addFields`: the fields added to the encoder it is handed) are parameters
+var withTypes = map[string]string{"Core": "opt:Core", "Field": "Field", "zapcore.Field": "Field", "zapcore.Core": "opt:Core",
+	"Entry": "struct:Entry", "*CheckedEntry": "opt:CE", "Level": "i8",
+	"ioCore": "struct:IoCore", "*ioCore": "ptr:struct:IoCore", "multiCore": "[]opt:Core", "sampler": "struct:Sampler", "hooked": "struct:Hooked",
+	"levelFilterCore": "struct:LevelFilter", "contextObserver": "struct:CtxObserver"}
+var withStructs = map[string][]fieldSpec{
+	"Entry":       {{"Level", "i8"}, {"Rest", "opt:EntryRest"}},
+	"IoCore":      {{"LevelEnabler", "opt:LevelEnabler"}, {"enc", "opt:Encoder"}, {"out", "opt:WriteSyncer"}},
+	"Sampler":     {{"Core", "opt:Core"}, {"counts", "opt:Counters"}, {"tick", "opt:Tick"}, {"first", "opt:U64"}, {"thereafter", "opt:U64"}, {"hook", "opt:SamplerHook"}},
+	"Hooked":      {{"Core", "opt:Core"}, {"funcs", "opt:HookFns"}},
+	"LevelFilter": {{"core", "opt:Core"}, {"level", "opt:LevelEnabler"}},
+	"CtxObserver": {{"LevelEnabler", "opt:LevelEnabler"}, {"logs", "opt:ObservedLogs"}, {"context", "[]Field"}},
+}
+var withCalls = map[string]shim{
+	"opt:Core.With":      {kind: "ext", f: "Core.With", res: []string{"opt:Core"}},
+	"opt:Encoder.Clone":  {kind: "ext", f: "Encoder.Clone", res: []string{"opt:Encoder"}},
+	"addFields":          {kind: "mutarg:0", f: "addFields"},
+	"make":               {kind: "ext", f: "make.cores", res: []string{"[]opt:Core"}},
+	"slice.set":          {kind: "ext", f: "slice.set"},
+	"opt:Core.Enabled":   {kind: "ext", f: "Core.Enabled", res: []string{"bool"}},
+	"opt:Core.Check":     {kind: "ext", f: "Core.Check", res: []string{"opt:CE"}},
+	"opt:Core.Write":     {kind: "extstmt", f: "Core.Write", res: []string{"error"}, trace: "#ev"},
+	"opt:Core.Sync":      {kind: "extstmt", f: "Core.Sync", res: []string{"error"}, trace: "#ev"},
+}
+
+func withFunc(file, recv, name string, fields map[string]fieldSpec, recvAs *fieldSpec, extra map[string]shim) transFunc {
+	return transFunc{file: file, recv: recv, name: name, lean: recv + "_" + name, fields: merge2(map[string]fieldSpec{"#ev": {"ev", "[]Event"}}, fields),
+		recvAs: recvAs, types: withTypes, structs: withStructs, calls: merge(withCalls, extra), noFieldAppend: true,
+		implements: map[string]string{"ptr:struct:IoCore": "opt:Core", "[]opt:Core": "opt:Core", "ptr:struct:Sampler": "opt:Core",
+			"ptr:struct:Hooked": "opt:Core", "ptr:struct:LevelFilter": "opt:Core", "ptr:struct:CtxObserver": "opt:Core"}}
+}
+
+var ioWithFields = map[string]fieldSpec{"LevelEnabler": {"en", "opt:LevelEnabler"}, "enc": {"enc", "opt:Encoder"}, "out": {"out", "opt:WriteSyncer"}}
+var samplerWithFields = map[string]fieldSpec{"Core": {"core", "opt:Core"}, "counts": {"counts", "opt:Counters"}, "tick": {"tick", "opt:Tick"},
+	"first": {"first", "opt:U64"}, "thereafter": {"thereafter", "opt:U64"}, "hook": {"hook", "opt:SamplerHook"}}
+var lazyFields = map[string]fieldSpec{"core": {"core", "opt:Core"}, "originalCore": {"orig", "opt:Core"}, "Once": {"done", "bool"}, "fields": {"fields", "[]Field"}}
+var lazyInit = map[string]shim{"recv.initOnce": {kind: "fun", f: "lazyWithCore_initOnce"}}
+
+// ---- round 4, C14: sugar.go getMessage / getMessageln and the WHOLE of log / logln (TransLogger translates only their
+// guards).  fmt.Sprint / Sprintf / Sprintln and the `.(string)` assertion are parameters; the base logger's Check, the
+// sweetening of the context (proved about the source in TransSweeten) and ce.Write are recorded intrinsics.
+func sugarMsgFunc(recv, name string, extra map[string]shim) transFunc {
+	lean := name
+	if recv != "" {
+		lean = "Sugar_" + name
+	}
+	return transFunc{file: "sugar.go", recv: recv, name: name, lean: lean,
+		fields: map[string]fieldSpec{"#ev": {"ev", "[]Event"}, "base": {"base", "Logger"}},
+		types:  map[string]string{"interface{}": "Any", "zapcore.Level": "i8"},
+		consts: map[string]string{"DPanicLevel": "i8:3"},
+		calls: merge(map[string]shim{
+			"fmt.Sprintf":  {kind: "ext", f: "fmt.Sprintf", res: []string{"string"}},
+			"fmt.Sprint":   {kind: "ext", f: "fmt.Sprint", res: []string{"string"}},
+			"fmt.Sprintln": {kind: "ext", f: "fmt.Sprintln", res: []string{"string"}},
+			".(string)":    {kind: "extstmt", f: "assert.string", res: []string{"string", "bool"}},
+		}, extra)}
+}
+
+var sugarLogCalls = map[string]shim{
+	"recv.base.Core().Enabled": {kind: "ext", f: "Core.Enabled", res: []string{"bool"}},
+	"getMessage":               {kind: "fun", f: "getMessage", res: []string{"string"}},
+	"getMessageln":             {kind: "fun", f: "getMessageln", res: []string{"string"}},
+	"Logger.Check":             {kind: "extstmt", f: "Logger.Check", res: []string{"opt:CE"}, trace: "#ev"},
+	"recv.sweetenFields":       {kind: "extstmt", f: "Sugar.sweetenFields", res: []string{"[]Field"}, trace: "#ev"},
+	"opt:CE.Write":             {kind: "extstmt", f: "CE.Write", trace: "#ev"},
+}
+
+// ---- round 4, C05: the constructors that decide what a core tree IS: NewIncreaseLevelCore (the validation scan over
+// the levels, highest first), NewTee (0 / 1 / n), and the Level() methods.  Enabled of a core / an enabler and LevelOf are
+// parameters; the level bounds are read from zapcore/level.go.
+var ctorConsts = map[string]string{"_maxLevel": "src:zapcore/level.go", "_minLevel": "src:zapcore/level.go", "InvalidLevel": "src:zapcore/level.go"}
+var ctorTypes = map[string]string{"Core": "opt:Core", "LevelEnabler": "opt:LevelEnabler", "Level": "i8", "levelFilterCore": "struct:LevelFilter",
+	"multiCore": "[]opt:Core"}
+
+func ctorFunc(file, recv, name string, fields map[string]fieldSpec, recvAs *fieldSpec) transFunc {
+	lean := name
+	if recv != "" {
+		lean = recv + "_" + name
+	}
+	return transFunc{file: file, recv: recv, name: name, lean: lean, fields: fields, recvAs: recvAs, consts: ctorConsts, types: ctorTypes,
+		structs:    map[string][]fieldSpec{"LevelFilter": {{"core", "opt:Core"}, {"level", "opt:LevelEnabler"}}},
+		implements: map[string]string{"ptr:struct:LevelFilter": "opt:Core", "[]opt:Core": "opt:Core"},
+		calls: map[string]shim{
+			"opt:Core.Enabled":         {kind: "ext", f: "Core.Enabled", res: []string{"bool"}},
+			"opt:LevelEnabler.Enabled": {kind: "ext", f: "LevelEnabler.Enabled", res: []string{"bool"}},
+			"fmt.Errorf":               {kind: "ext", f: "fmt.Errorf", res: []string{"error"}},
+			"NewNopCore":               {kind: "ext", f: "NewNopCore", res: []string{"opt:Core"}},
+			"LevelOf":                  {kind: "ext", f: "LevelOf", res: []string{"i8"}},
+		}}
+}
+
+// ---- round 4, C13: the small writers.  global.go (*loggerWriter).Write (the standard-library log bridge), zaptest
+// TestingWriter.Write, zapcore AddSync / writerWrapper.Sync / Lock / NewMultiWriteSyncer.  The log function, testing.TB,
+// bytes.TrimSpace / TrimRight and the type assertions are parameters / recorded intrinsics.
+func writerFunc(file, recv, name string, fields map[string]fieldSpec, recvAs *fieldSpec, extra map[string]shim) transFunc {
+	lean := name
+	if recv != "" {
+		lean = recv + "_" + name
+	}
+	return transFunc{file: file, recv: recv, name: name, lean: lean, fields: merge2(map[string]fieldSpec{"#ev": {"ev", "[]Event"}}, fields), recvAs: recvAs,
+		types: map[string]string{"io.Writer": "opt:Writer", "WriteSyncer": "opt:WriteSyncer", "writerWrapper": "struct:WriterWrapper",
+			"lockedWriteSyncer": "struct:LockedWS", "multiWriteSyncer": "[]opt:WriteSyncer"},
+		structs: map[string][]fieldSpec{"WriterWrapper": {{"Writer", "opt:Writer"}}, "LockedWS": {{"Mutex", "opt:Mutex"}, {"ws", "opt:WriteSyncer"}}},
+		implements: map[string]string{"struct:WriterWrapper": "opt:WriteSyncer", "ptr:struct:LockedWS": "opt:WriteSyncer",
+			"[]opt:WriteSyncer": "opt:WriteSyncer"},
+		calls: merge(map[string]shim{
+			"bytes.TrimSpace": {kind: "ext", f: "bytes.TrimSpace", res: []string{"bytes"}},
+			"bytes.TrimRight": {kind: "ext", f: "bytes.TrimRight", res: []string{"bytes"}},
+		}, extra)}
+}
+
+// ---- round 4, C15: the stack formatter (internal/stacktrace).  The *Stack handed to FormatStack is the ITERATOR value
+// (the frames not yet returned); `Next` is an intrinsic on it (runtime.Frames.Next: the next frame and whether more follow).
+func stackFmtFunc(name string, extra map[string]shim) transFunc {
+	return transFunc{file: "internal/stacktrace/stack.go", recv: "Formatter", name: name, lean: name,
+		fields:  map[string]fieldSpec{"b": {"b", "Buffer"}, "nonEmpty": {"nonEmpty", "bool"}},
+		types:   map[string]string{"runtime.Frame": "struct:Frame", "*Stack": "StackIter"},
+		structs: map[string][]fieldSpec{"Frame": {{"Function", "string"}, {"File", "string"}, {"Line", "int"}}},
+		calls: merge(bufferCalls, map[string]shim{
+			"Buffer.AppendInt": {kind: "mut", f: "Buffer.AppendInt"},
+			"StackIter.Next":   {kind: "mutext", f: "Frames.Next", res: []string{"struct:Frame", "bool"}},
+		}, extra)}
+}
+
+// ---- round 4, C06: the gRPC adapter's printers (zapgrpc/zapgrpc.go).  The delegate's methods (function values held by the
+// printer, methods of the sugared logger) are recorded; Enabled is a parameter; fmt.Sprintln a parameter.
+func grpcFunc(recv, name string, fields map[string]fieldSpec, extra map[string]shim) transFunc {
+	lean := name
+	if recv != "" {
+		lean = recv + "_" + name
+	}
+	return transFunc{file: "zapgrpc/zapgrpc.go", recv: recv, name: name, lean: lean,
+		fields: merge2(map[string]fieldSpec{"#ev": {"ev", "[]Event"}}, fields),
+		types:  map[string]string{"interface{}": "Any", "zapcore.Level": "i8"},
+		consts: map[string]string{"zapcore.DPanicLevel": "i8:3", "zapcore.InfoLevel": "i8:0", "zapcore.WarnLevel": "i8:1", "zapcore.ErrorLevel": "i8:2"},
+		calls: merge(map[string]shim{
+			"fmt.Sprintln":         {kind: "ext", f: "fmt.Sprintln", res: []string{"string"}},
+			"sprintln":             {kind: "funpure", f: "sprintln", res: []string{"string"}},
+			"LevelEnabler.Enabled": {kind: "ext", f: "LevelEnabler.Enabled", res: []string{"bool"}},
+		}, extra)}
+}
+
+var printerFields = map[string]fieldSpec{"enab": {"enab", "LevelEnabler"}, "level": {"level", "i8"}, "print": {"print", "PrintFn"}, "printf": {"printf", "PrintfFn"}}
+var printerCalls = map[string]shim{
+	"recv.print":  {kind: "extstmt", f: "PrintFn.call", with: []string{"print"}, trace: "#ev"},
+	"recv.printf": {kind: "extstmt", f: "PrintfFn.call", with: []string{"printf"}, trace: "#ev"},
+}
+var grpcLoggerFields = map[string]fieldSpec{"delegate": {"delegate", "Sugar"}, "levelEnabler": {"levelEnabler", "LevelEnabler"}}
+var grpcLoggerCalls = map[string]shim{
+	"Sugar.Info":  {kind: "extstmt", f: "Sugar.Info", trace: "#ev"},
+	"Sugar.Warn":  {kind: "extstmt", f: "Sugar.Warn", trace: "#ev"},
+	"Sugar.Error": {kind: "extstmt", f: "Sugar.Error", trace: "#ev"},
+}
+
 var transSpecs = []transSpec{
+	{table: "TransGrpc", funcs: []transFunc{
+		grpcFunc("", "sprintln", nil, nil),
+		grpcFunc("printer", "Print", printerFields, printerCalls),
+		grpcFunc("printer", "Printf", printerFields, printerCalls),
+		grpcFunc("printer", "Println", printerFields, printerCalls),
+		grpcFunc("Logger", "Infoln", grpcLoggerFields, grpcLoggerCalls),
+		grpcFunc("Logger", "Warningln", grpcLoggerFields, grpcLoggerCalls),
+		grpcFunc("Logger", "Errorln", grpcLoggerFields, grpcLoggerCalls),
+	}},
+	{table: "TransStackFmt", funcs: []transFunc{
+		stackFmtFunc("FormatFrame", nil),
+		stackFmtFunc("FormatStack", map[string]shim{"recv.FormatFrame": {kind: "fun", f: "FormatFrame"}}),
+	}},
+	{table: "TransWriters", funcs: []transFunc{
+		writerFunc("global.go", "loggerWriter", "Write", map[string]fieldSpec{"logFunc": {"logFunc", "LogFunc"}}, nil, map[string]shim{
+			// l.logFunc(msg): the call of the function value held by the receiver — recorded, handed that value and the message
+			"recv.logFunc": {kind: "extstmt", f: "LogFunc.call", with: []string{"logFunc"}, trace: "#ev"}}),
+		writerFunc("zaptest/logger.go", "TestingWriter", "Write",
+			map[string]fieldSpec{"t": {"t", "TB"}, "markFailed": {"markFailed", "bool"}}, nil, map[string]shim{
+				"TB.Logf": {kind: "extstmt", f: "TB.Logf", trace: "#ev"},
+				"TB.Fail": {kind: "extstmt", f: "TB.Fail", trace: "#ev"}}),
+		writerFunc("zapcore/write_syncer.go", "", "AddSync", nil, nil, map[string]shim{
+			".(WriteSyncer)": {kind: "extstmt", f: "assert.WriteSyncer", res: []string{"opt:WriteSyncer", "bool"}}}),
+		writerFunc("zapcore/write_syncer.go", "writerWrapper", "Sync", map[string]fieldSpec{"Writer": {"w", "opt:Writer"}}, nil, nil),
+		writerFunc("zapcore/write_syncer.go", "", "Lock", nil, nil, map[string]shim{
+			".(*lockedWriteSyncer)": {kind: "extstmt", f: "assert.lockedWriteSyncer", res: []string{"opt:LockedWS", "bool"}}}),
+		writerFunc("zapcore/write_syncer.go", "", "NewMultiWriteSyncer", nil, nil, nil),
+	}},
+	{table: "TransCtor", funcs: []transFunc{
+		ctorFunc("zapcore/increase_level.go", "", "NewIncreaseLevelCore", nil, nil),
+		ctorFunc("zapcore/increase_level.go", "levelFilterCore", "Level",
+			map[string]fieldSpec{"core": {"core", "opt:Core"}, "level": {"level", "opt:LevelEnabler"}}, nil),
+		ctorFunc("zapcore/tee.go", "", "NewTee", nil, nil),
+		ctorFunc("zapcore/tee.go", "multiCore", "Level", nil, &fieldSpec{"mc", "[]opt:Core"}),
+	}},
+	{table: "TransMessage", funcs: []transFunc{
+		sugarMsgFunc("", "getMessage", nil),
+		sugarMsgFunc("", "getMessageln", nil),
+		sugarMsgFunc("SugaredLogger", "log", sugarLogCalls),
+		sugarMsgFunc("SugaredLogger", "logln", sugarLogCalls),
+	}},
+	{table: "TransDerive", funcs: []transFunc{
+		loggerFunc("clone", nil),
+		loggerFunc("Named", map[string]shim{"recv.clone": {kind: "objectfun", f: "Logger_clone"}}),
+		loggerFunc("With", map[string]shim{"recv.clone": {kind: "objectfun", f: "Logger_clone"}}),
+		loggerFunc("WithOptions", map[string]shim{
+			// c := log.clone(): proved about the source as Logger_clone_matches_source — the copy of every field; from here on
+			// `c` is the primary object.  opt.apply(c) may change any field of the clone (and nothing else)
+			"recv.clone":   {kind: "primary", f: "Logger.clone", flds: lgNames, with: lgNames},
+			"Option.apply": {kind: "extfld", f: "Option.apply", flds: lgNames},
+		}),
+		loggerFunc("WithLazy", map[string]shim{
+			// proved about the source as Logger_WithOptions_matches_source (there the receiver is read through the SECOND
+			// object, so the two terms do not compose on one environment): here an intrinsic on the receiver's fields
+			"recv.WithOptions": {kind: "ext", f: "Logger.WithOptions", with: lgNames, res: []string{"Logger"}},
+			"WrapCore":         {kind: "ext", f: "WrapCore", res: []string{"Option"}},
+		}),
+		withFunc("zapcore/core.go", "ioCore", "clone", ioWithFields, nil, nil),
+		withFunc("zapcore/core.go", "ioCore", "With", ioWithFields, nil, map[string]shim{
+			"recv.clone": {kind: "fun", f: "ioCore_clone", res: []string{"ptr:struct:IoCore"}}}),
+		withFunc("zapcore/tee.go", "multiCore", "With", nil, &fieldSpec{"mc", "[]opt:Core"}, nil),
+		withFunc("zapcore/sampler.go", "sampler", "With", samplerWithFields, nil, nil),
+		withFunc("zapcore/hook.go", "hooked", "With", map[string]fieldSpec{"Core": {"core", "opt:Core"}, "funcs": {"funcs", "opt:HookFns"}}, nil, nil),
+		withFunc("zapcore/increase_level.go", "levelFilterCore", "With",
+			map[string]fieldSpec{"core": {"core", "opt:Core"}, "level": {"level", "opt:LevelEnabler"}}, nil, nil),
+		withFunc("zaptest/observer/observer.go", "contextObserver", "With",
+			map[string]fieldSpec{"LevelEnabler": {"en", "opt:LevelEnabler"}, "logs": {"logs", "opt:ObservedLogs"}, "context": {"context", "[]Field"}}, nil, nil),
+		withFunc("zapcore/lazy_with.go", "lazyWithCore", "initOnce", lazyFields, nil, map[string]shim{"recv.Once.Do": {kind: "once", flds: []string{"Once"}}}),
+		withFunc("zapcore/lazy_with.go", "lazyWithCore", "With", lazyFields, nil, lazyInit),
+		withFunc("zapcore/lazy_with.go", "lazyWithCore", "Check", lazyFields, nil, lazyInit),
+		withFunc("zapcore/lazy_with.go", "lazyWithCore", "Enabled", lazyFields, nil, lazyInit),
+		withFunc("zapcore/lazy_with.go", "lazyWithCore", "Write", lazyFields, nil, lazyInit),
+		withFunc("zapcore/lazy_with.go", "lazyWithCore", "Sync", lazyFields, nil, lazyInit),
+	}},
+	{table: "TransLevel", funcs: []transFunc{
+		levelFunc("Level", "unmarshalText", nil),
+		levelFunc("Level", "String", nil),
+		levelFunc("Level", "CapitalString", nil),
+		func() transFunc {
+			f := levelFunc("Level", "UnmarshalText", map[string]shim{"recv.unmarshalText": {kind: "fun", f: "unmarshalText", res: []string{"bool"}}})
+			f.recvNil = "isnil"
+			f.consts = merge1(levelConsts, map[string]string{"errUnmarshalNilLevel": "val:error|.list [.int 0]"})
+			return f
+		}(),
+		levelFunc("", "ParseLevel", levelUnmarshalOnLocal),
+		levelFunc("Level", "Enabled", nil),
+		levelFunc("Level", "MarshalText", map[string]shim{"recv.String": {kind: "fun", f: "LevelString", res: []string{"string"}}}),
+		func() transFunc {
+			f := levelFunc("Level", "Set", map[string]shim{"recv.UnmarshalText": {kind: "fun", f: "UnmarshalText", res: []string{"error"}}})
+			f.recvNil = "isnil"
+			return f
+		}(),
+		levelFunc("", "LevelOf", map[string]shim{
+			".(leveledEnabler)":    {kind: "extstmt", f: "assert.leveledEnabler", res: []string{"LeveledEnabler", "bool"}},
+			"LeveledEnabler.Level": {kind: "ext", f: "LeveledEnabler.Level", res: []string{"i8"}},
+			"LevelEnabler.Enabled": {kind: "ext", f: "LevelEnabler.Enabled", res: []string{"bool"}},
+		}),
+		httpFunc("", "decodePutURL", merge(levelUnmarshalOnLocal, map[string]shim{
+			"ptr:struct:Request.FormValue": {kind: "ext", f: "Request.FormValue", res: []string{"string"}},
+		})),
+		httpFunc("", "decodePutJSON", map[string]shim{
+			// json.NewDecoder(body).Decode(&pld): what the decoder leaves in pld.Level (nil / a level) and its error
+			"json.NewDecoder(body).Decode": {kind: "mutarg:0", f: "json.Decode", xargs: []string{"body"}, res: []string{"error"}},
+		}),
+		httpFunc("", "decodePutRequest", map[string]shim{
+			"decodePutURL":  {kind: "fun", f: "decodePutURL", res: []string{"i8", "error"}},
+			"decodePutJSON": {kind: "fun", f: "decodePutJSON", res: []string{"i8", "error"}},
+		}),
+		httpFunc("AtomicLevel", "serveHTTP", map[string]shim{
+			"json.NewEncoder":            {kind: "ext", f: "json.NewEncoder", res: []string{"JsonEncoder"}},
+			"JsonEncoder.Encode":         {kind: "extstmt", f: "json.Encode", res: []string{"error"}, trace: "#ev"},
+			"ResponseWriter.WriteHeader": {kind: "extstmt", f: "ResponseWriter.WriteHeader", trace: "#ev"},
+			"Header.Get":                 {kind: "ext", f: "Header.Get", res: []string{"string"}},
+			"error.Error":                {kind: "ext", f: "error.Error", res: []string{"string"}},
+			"recv.Level":                 {kind: "ext", f: "id", with: []string{"#level"}, res: []string{"i8"}},
+			"recv.SetLevel":              {kind: "extfld", f: "set", flds: []string{"#level"}},
+			"decodePutRequest":           {kind: "fun", f: "decodePutRequest", res: []string{"i8", "error"}},
+		}),
+	}},
 	// the CTR self-test: probe functions of the harness, translated like any whitelisted function
 	{table: "TransProbe", funcs: probeFuncs()},
 	{table: "TransSampler", funcs: []transFunc{
